@@ -399,7 +399,8 @@ func c04Default(c *Ctx) {
 		return
 	}
 	n := 0
-	for _, g := range WithClosures(rc) {
+	// readConfig, its closures and the helpers of the package it calls (setPoolsDiscardOverflowDefault, ...)
+	for _, g := range FindFuncs(rc, 2, func(*ssa.Function) bool { return true }) {
 		EachInstr(g, func(in ssa.Instruction) {
 			mu, ok := in.(*ssa.MapUpdate)
 			if !ok {
